@@ -566,6 +566,31 @@ def analyze_loop(I, st, fr, info):
                     r = b.d["n"] if kind == "count" else b.d["r"].len
                     return sb.entails(tot0 - a.len - r)
                 pair_checks.append((cid, pchk))
+        # relational candidates (integer counter, slice being consumed):  x - off(R) stays constant
+        ints = [(p, entry_vals[p]) for p in places if p in widened and isinstance(entry_vals[p], VInt)]
+        regs = [(p, entry_vals[p]) for p in places if p in widened and isinstance(entry_vals[p], VRegion)]
+        if len(ints) * len(regs) <= 12:
+            for px, x0 in ints:
+                for pr, r0 in regs:
+                    cid = ("pairxr", px, pr)
+                    if cid in disabled:
+                        continue
+                    hx = I.load(head, ("place",) + px)
+                    hr = I.load(head, ("place",) + pr)
+                    if not (isinstance(hx, VInt) and isinstance(hr, VRegion) and hr.origin == r0.origin):
+                        continue
+                    c0 = x0.lin - r0.off
+                    head.add_ge0(hx.lin - hr.off - c0)
+                    head.add_ge0(c0 - hx.lin + hr.off)
+
+                    def xchk(sb, px=px, pr=pr, c0=c0, origin=r0.origin):
+                        a = I.load(sb, ("place",) + px)
+                        b = I.load(sb, ("place",) + pr)
+                        if not (isinstance(a, VInt) and isinstance(b, VRegion) and b.origin == origin):
+                            return False
+                        d = a.lin - b.off - c0
+                        return sb.entails(d) and sb.entails(-d)
+                    pair_checks.append((cid, xchk))
         if not head.feasible():
             return []
 
